@@ -27,45 +27,74 @@ APIS = {
 }
 
 
+RID = "self._request_id_gen.next()"
+URI_PARAM = {"publish": (1, ""), "call": (1, ""), "subscribe": ("topic", ""), "register": ("procedure", ""), "unsubscribe": (1, ".id"), "unregister": (1, ".id")}
+
+
 def rule_construction(ctx):
+    """Name-agnostic: values are identified by their canonical definition (single-definition locals expanded), objects by the variable
+    that holds them; how (and whether) intermediate values are named does not matter."""
+    from .common import local_canon, canon_text
+    from ..core.flow import local_assignments
     ctx.rule("C04.1-request-construction")
     an = get_analysis(ctx)
-    for api, (q, table, rec, msgcls, uri) in APIS.items():
+    for api, (q, table, rec, msgcls, _uri) in APIS.items():
         fn = ctx.program.func(q)
         ctx.analysed(fn)
         g, mf, res = an.get(fn)
-        ids = [n for n in g.stmt_nodes() for c in node_calls(n) if norm.text(c.func) == "self._request_id_gen.next"]
-        ok = len(ids) == 1 and isinstance(ids[0].ast, ast.Assign) and norm.text(ids[0].ast.targets[0]) == "request_id"
-        ctx.ob(f"{api}: exactly one fresh request id per request", ok, f"{len(ids)} id allocations", fn.loc())
+        canon = local_canon(fn)
+
+        def ct(e):
+            return canon_text(fn, e, canon)
+
+        def defs_of(e):
+            """the expressions a send argument / record value may denote: itself, or every assignment to the local it names"""
+            if isinstance(e, ast.Name):
+                ds = [v for v in local_assignments(fn, e.id) if v is not None]
+                return ds or [e]
+            return [e]
+        k, suffix = URI_PARAM[api]
+        prm = fn.params()
+        uri = (prm[k] if isinstance(k, int) and len(prm) > k else k) + suffix
+        ids = [n for n in g.stmt_nodes() for c in node_calls(n) if norm.text(c) == RID]
+        ctx.ob(f"{api}: exactly one fresh request id per request", len(ids) == 1, f"{len(ids)} id allocations", fn.loc())
         stores = [n for n in g.stmt_nodes() if n.kind == "stmt" and isinstance(n.ast, ast.Assign) and isinstance(n.ast.targets[0], ast.Subscript)
                   and is_self_attr(n.ast.targets[0].value) and n.ast.targets[0].value.attr.endswith("_reqs")]
         ctx.ob(f"{api}: one pending-table store", len(stores) == 1, f"{len(stores)} stores", fn.loc())
+        held = set()
         for s in stores:
             t = s.ast.targets[0]
             ctx.ob(f"{api}: record stored in its own table {table}", t.value.attr == table, f"stored in {t.value.attr}", fn.loc(s.ast))
-            ctx.ob(f"{api}: table key is the request id", norm.text(t.slice) == "request_id", f"key {norm.text(t.slice)}", fn.loc(s.ast))
-            v = s.ast.value
-            okr = isinstance(v, ast.Call) and call_name(v) == rec and v.args and norm.text(v.args[0]) == "request_id"
-            ctx.ob(f"{api}: record is {rec}(request_id, ...)", bool(okr), f"record {norm.text(v)[:60]}", fn.loc(s.ast))
+            ctx.ob(f"{api}: table key is the request id", ct(t.slice) == RID, f"key {norm.text(t.slice)}", fn.loc(s.ast))
+            vs = defs_of(s.ast.value)
+            okr = bool(vs) and all(isinstance(v, ast.Call) and call_name(v) == rec and v.args and ct(v.args[0]) == RID for v in vs)
+            ctx.ob(f"{api}: record is {rec}(request id, ...)", bool(okr), f"record {norm.text(s.ast.value)[:60]}", fn.loc(s.ast))
             if okr:
-                has_reply = any(norm.text(a) == "on_reply" for a in v.args) or any(norm.text(k.value) == "on_reply" for k in v.keywords)
-                ctx.ob(f"{api}: record holds the pending result that is returned", has_reply, "on_reply not in the record", fn.loc(s.ast))
+                for v in vs:
+                    held |= {x.id for x in list(v.args) + [k_.value for k_ in v.keywords] if isinstance(x, ast.Name)}
         rets = [n for n in g.stmt_nodes() if n.kind == "stmt" and isinstance(n.ast, ast.Return) and n.ast.value is not None]
-        okret = bool(rets) and all(norm.text(r.ast.value) == "on_reply" or norm.text(r.ast.value).startswith("txaio.create_future_success") for r in rets)
+        okret = bool(rets) and all((isinstance(r.ast.value, ast.Name) and r.ast.value.id in held and r.ast.value.id not in prm) or
+                                   ct(r.ast.value).startswith("txaio.create_future_success") for r in rets)
         ctx.ob(f"{api}: returns the pending result stored in the record", okret, f"returns {[norm.text(r.ast.value) for r in rets]}", fn.loc())
+        if rets and stores:
+            ctx.ob(f"{api}: record holds the pending result that is returned", any(isinstance(r.ast.value, ast.Name) and r.ast.value.id in held for r in rets),
+                   "the returned object is not in the record", fn.loc(stores[0].ast))
         msgs = [c for c in calls_in(fn.node) if call_name(c) == f"message.{msgcls}"]
         ctx.ob(f"{api}: builds message.{msgcls}", bool(msgs), "message construction not found", fn.loc())
         for c in msgs:
-            ok1 = len(c.args) >= 2 and norm.text(c.args[0]) == "request_id" and norm.text(c.args[1]) == uri
+            ok1 = len(c.args) >= 2 and ct(c.args[0]) == RID and ct(c.args[1]) == uri
             ctx.ob(f"{api}: message carries the request id and the given {uri}", ok1, f"{norm.text(c)[:70]}", fn.loc(c))
             if api in ("publish", "call"):
-                kws = {k.arg: norm.text(k.value) for k in c.keywords if k.arg}
+                kws = {k_.arg: ct(k_.value) for k_ in c.keywords if k_.arg}
                 if "payload" in kws:
                     ctx.ob(f"{api}: encoded form carries no clear args/kwargs", "args" not in kws and "kwargs" not in kws, f"{sorted(kws)}", fn.loc(c))
                 else:
                     ctx.ob(f"{api}: args/kwargs passed through unmodified", kws.get("args") == "args" and kws.get("kwargs") == "kwargs", f"{kws}", fn.loc(c))
-        sends = [(n, c) for n in g.stmt_nodes() for c in node_calls(n) if norm.text(c.func) == "self._transport.send" and c.args and norm.text(c.args[0]) == "msg"]
-        ctx.ob(f"{api}: exactly one request message is sent", len(sends) == 1, f"{len(sends)} send sites", fn.loc())
+        sends = [(n, c) for n in g.stmt_nodes() for c in node_calls(n) if norm.text(c.func) == "self._transport.send" and len(c.args) == 1
+                 and all(isinstance(v, ast.Call) and call_name(v) == f"message.{msgcls}" for v in defs_of(c.args[0]))]
+        others = [c for n in g.stmt_nodes() for c in node_calls(n) if norm.text(c.func) == "self._transport.send" and all(c is not x for _, x in sends)]
+        ctx.ob(f"{api}: exactly one request message is sent", len(sends) == 1 and not others,
+               f"{len(sends)} send sites for message.{msgcls}, {len(others)} other sends", fn.loc())
         guard = [n for n in g.stmt_nodes() if n.kind == "test" and norm.atoms(n.ast, True, res) == [("truth", "self._transport", None, False)]]
         # the TransportLost guard may sit in the enclosing public method (subscribe/register)
         host = fn if fn.parent is None else fn.parent
@@ -93,7 +122,7 @@ def rule_construction(ctx):
                     body = h.ast.body
                     dels = any((isinstance(x, ast.Delete) and table in norm.text(x)) or
                                (isinstance(x, ast.Call) and isinstance(x.func, ast.Attribute) and x.func.attr == "pop" and table in norm.text(x.func.value)
-                                and x.args and norm.text(x.args[0]) == "request_id") for b in body for x in ast.walk(b))
+                                and x.args and ct(x.args[0]) == RID) for b in body for x in ast.walk(b))
                     rer = any(isinstance(x, ast.Raise) for b in body for x in ast.walk(b))
                     okh = okh and dels and rer
                 ctx.ob(f"{api}: record removed and error re-raised when send fails", okh, "send not wrapped / handler does not remove the record and re-raise", fn.loc(sc))
@@ -342,3 +371,6 @@ def run(ctx):
     rule_remove_then_complete(ctx)
     rule_optional_payload(ctx)
     rule_options(ctx)
+    # "... or with the error that reply carries": the exception a pending request is rejected with is built from the ERROR's URI, args, kwargs
+    from .c18 import rule_from_error
+    rule_from_error(ctx, "C04.7-error-reply-content")
